@@ -466,6 +466,16 @@ def MState.step (m : MState) (st : IStep) : MState :=
       match outcome with
       | .ok => m.onRequest c r st.ds .ok
       | .connError =>
+        -- a participant's request that the protocol answers or ignores must not end the connection: only a
+        -- malformed frame or a refused receipt does
+        let m := match m.whereIs c, r with
+          | some _, .receipt .. | some _, .undecodable .. => m
+          | some _, .updatePose .. =>
+            ((m.bad "C04" "request-ends-connection" (flat s!"{reprStr r}")).bad "C05" "request-ends-connection" (flat s!"{reprStr r}")).bad "C11" "request-ends-connection" (flat s!"{reprStr r}")
+          | some _, .entityDelete .. | some _, .assetAdd .. =>
+            (m.bad "C04" "request-ends-connection" (flat s!"{reprStr r}")).bad "C05" "request-ends-connection" (flat s!"{reprStr r}")
+          | some _, _ => m.bad "C04" "request-ends-connection" (flat s!"{reprStr r}")
+          | none, _ => m
         -- a refused request must not have been executed; then the connection leaves through the normal path
         let m1 := match m.whereIs c, r with
           | some _, .join .. => m.onRequest c r st.ds .connError
